@@ -264,7 +264,15 @@ func (r *Run) writeEvidence(nviol, nknown, nkeys int, inconclusive []string) err
 	if err := os.WriteFile(tmp, b, 0o644); err != nil {
 		return err
 	}
-	return os.Rename(tmp, filepath.Join(dir, r.Prop+".json"))
+	if err := os.Rename(tmp, filepath.Join(dir, r.Prop+".json")); err != nil {
+		return err
+	}
+	if r.Tier == "thorough" {
+		// the deeper run's evidence is also kept under its own name, so that a later quick
+		// run (which rewrites <id>.json) does not erase it
+		return os.WriteFile(filepath.Join(dir, r.Prop+".thorough.json"), b, 0o644)
+	}
+	return nil
 }
 
 func replay(path string) int {
